@@ -136,6 +136,11 @@ def build(c):
     w.unlock_ok = c["unlock_ok"]
     w.post_mode = c["post_mode"]
     w.pin = PIN
+    # leaving the UI makes the device drop off the link: the host sees a failed read, a failed
+    # write or a time-out (spread over the grid)
+    w.exit_drop = ["read", "write", "timeout"][
+        (c["retries"] + sum(c["ui_version"]) + 2 * sum(c["signer_version"]) +
+         PLATFORMS.index(c["platform"]) + POST.index(c["post_mode"])) % 3]
     ch = c.get("change", "accept" if c["needs_change"] else False)
     if ch and ch != "commit-fails":
         w.newpin_behaviour = ch
@@ -188,6 +193,10 @@ def run_case(c):
         out = "interrupt"
     except Exception as e:     # noqa - any other way of not getting through the bring-up: it stops
         out = "crash:" + type(e).__name__
+    except BaseException as e:     # noqa
+        if type(e) is not BaseException:
+            raise                  # the harness's own signals (watchdog, simulated crash)
+        out = "crash:BaseException"     # what the USB transport raises for a failed write
     finally:
         Platform.set(Platform.LEDGER)
     mw.check_sim(w)
@@ -206,7 +215,7 @@ def run_case(c):
         raise Violation("served-without-unlock", repr(desc))
     boundary = c["ui_version"] in BOUNDARY_V[1:] or c["signer_version"] in BOUNDARY_V[1:]
     labels = ["out:" + out, "platform:" + c["platform"], "mode:%s" % c["mode"],
-              "echo:%s" % w.echo_ok,
+              "echo:%s" % w.echo_ok, "exit-drop:" + w.exit_drop,
               "unlocks:%d" % unlocks, "change:%s" % c.get("change", c["needs_change"])]
     if serves:
         labels.append("serves")
@@ -252,6 +261,10 @@ def run_fault_case(c):
         out = "stop"
     except Exception as e:   # noqa - the manager stops either way
         out = "stop:" + type(e).__name__
+    except BaseException as e:   # noqa
+        if type(e) is not BaseException:
+            raise
+        out = "stop:BaseException"
     finally:
         Platform.set(Platform.LEDGER)
     mw.check_sim(w)
@@ -454,7 +467,8 @@ REQUIRED_LABELS = {t: ["change:%s" % x for x in CHANGES] + ["out:serve", "out:er
                        "server:answered", "server:silent", "server:restarted", "program:Ledger", "program:SGX",
                        "program:TCP", "program-serves", "program-stops", "program:forced-change", "fault-at-unlock", "fault-out:stop",
                        "fault-platform:SGX", "fault-platform:Ledger", "echo:hdr-cmd",
-                       "echo:hdr-cla", "echo:short", "echo:False", "echo:True"] for t in ("quick", "thorough")}
+                       "echo:hdr-cla", "echo:short", "echo:False", "echo:True", "exit-drop:read",
+                       "exit-drop:write", "exit-drop:timeout"] for t in ("quick", "thorough")}
 
 
 def stages(tier):
